@@ -1,0 +1,222 @@
+//go:build verif
+
+// Verification hooks for the manifest / commit protocol (properties C02, C05, C07 of /verif).
+// Compiled only with `-tags verif`; adds exported wrappers and setters, changes no behaviour.
+
+package nbs
+
+import (
+	"bytes"
+	"context"
+
+	dherrors "github.com/dolthub/dolt/go/libraries/utils/errors"
+	"github.com/dolthub/dolt/go/store/hash"
+)
+
+// VerifManSpec is a tableSpec with exported fields.
+type VerifManSpec struct {
+	Name  hash.Hash
+	Count uint32
+}
+
+// VerifManContents is manifestContents with exported fields.
+type VerifManContents struct {
+	ManifestVers string
+	NbfVers      string
+	Lock         hash.Hash
+	Root         hash.Hash
+	GCGen        hash.Hash
+	Specs        []VerifManSpec
+	Appendix     []VerifManSpec
+}
+
+func verifManToSpecs(in []VerifManSpec) []tableSpec {
+	if in == nil {
+		return nil
+	}
+	out := make([]tableSpec, len(in))
+	for i, s := range in {
+		out[i] = tableSpec{name: s.Name, chunkCount: s.Count}
+	}
+	return out
+}
+
+func verifManFromSpecs(in []tableSpec) []VerifManSpec {
+	if in == nil {
+		return nil
+	}
+	out := make([]VerifManSpec, len(in))
+	for i, s := range in {
+		out[i] = VerifManSpec{Name: s.name, Count: s.chunkCount}
+	}
+	return out
+}
+
+func verifManTo(c VerifManContents) manifestContents {
+	return manifestContents{manifestVers: c.ManifestVers, nbfVers: c.NbfVers, lock: c.Lock, root: c.Root, gcGen: c.GCGen,
+		specs: verifManToSpecs(c.Specs), appendix: verifManToSpecs(c.Appendix)}
+}
+
+func verifManFrom(c manifestContents) VerifManContents {
+	return VerifManContents{ManifestVers: c.manifestVers, NbfVers: c.nbfVers, Lock: c.lock, Root: c.root, GCGen: c.gcGen,
+		Specs: verifManFromSpecs(c.specs), Appendix: verifManFromSpecs(c.appendix)}
+}
+
+// VerifManParse runs parseManifest on raw bytes.
+func VerifManParse(b []byte) (VerifManContents, error) {
+	c, err := parseManifest(bytes.NewReader(b))
+	return verifManFrom(c), err
+}
+
+// VerifManWrite runs writeManifest.
+func VerifManWrite(c VerifManContents) ([]byte, error) {
+	var buf bytes.Buffer
+	err := writeManifest(&buf, verifManTo(c))
+	return buf.Bytes(), err
+}
+
+// VerifManLockHash runs generateLockHash.
+func VerifManLockHash(root hash.Hash, specs, appendix []VerifManSpec, extra []byte) hash.Hash {
+	return generateLockHash(root, verifManToSpecs(specs), verifManToSpecs(appendix), extra)
+}
+
+// VerifManFile is a fileManifest on a directory with exported operations that accept hooks.
+type VerifManFile struct{ fm fileManifest }
+
+func VerifManOpenFileManifest(ctx context.Context, dir string) (*VerifManFile, error) {
+	m, err := getFileManifest(ctx, dir)
+	if err != nil {
+		return nil, err
+	}
+	return &VerifManFile{fm: m.(fileManifest)}, nil
+}
+
+func (f *VerifManFile) Close() error { return f.fm.Close() }
+
+func (f *VerifManFile) ParseIfExists(ctx context.Context, readHook func() error) (bool, VerifManContents, error) {
+	ok, c, err := f.fm.ParseIfExists(ctx, &Stats{}, readHook)
+	return ok, verifManFrom(c), err
+}
+
+func (f *VerifManFile) Update(ctx context.Context, lastLock hash.Hash, c VerifManContents, writeHook func() error) (VerifManContents, error) {
+	r, err := f.fm.Update(ctx, dherrors.FatalBehaviorError, lastLock, verifManTo(c), &Stats{}, writeHook)
+	return verifManFrom(r), err
+}
+
+func (f *VerifManFile) UpdateGCGen(ctx context.Context, lastLock hash.Hash, c VerifManContents, writeHook func() error) (VerifManContents, error) {
+	r, err := f.fm.UpdateGCGen(ctx, dherrors.FatalBehaviorError, lastLock, verifManTo(c), &Stats{}, writeHook)
+	return verifManFrom(r), err
+}
+
+// verifManHooked wraps the manifest of a NomsBlockStore so that the read/write hooks the
+// manifest methods already accept (NomsBlockStore always passes nil) can be set by a harness.
+type verifManHooked struct {
+	inner     manifest
+	readHook  func() error
+	writeHook func() error
+}
+
+func (w *verifManHooked) Name() string { return w.inner.Name() }
+func (w *verifManHooked) Close() error { return w.inner.Close() }
+
+func (w *verifManHooked) ParseIfExists(ctx context.Context, stats *Stats, readHook func() error) (bool, manifestContents, error) {
+	if readHook == nil {
+		readHook = w.readHook
+	}
+	return w.inner.ParseIfExists(ctx, stats, readHook)
+}
+
+func (w *verifManHooked) Update(ctx context.Context, behavior dherrors.FatalBehavior, lastLock hash.Hash, newContents manifestContents, stats *Stats, writeHook func() error) (manifestContents, error) {
+	if writeHook == nil {
+		writeHook = w.writeHook
+	}
+	return w.inner.Update(ctx, behavior, lastLock, newContents, stats, writeHook)
+}
+
+func (w *verifManHooked) UpdateGCGen(ctx context.Context, behavior dherrors.FatalBehavior, lastLock hash.Hash, newContents manifestContents, stats *Stats, writeHook func() error) (manifestContents, error) {
+	if writeHook == nil {
+		writeHook = w.writeHook
+	}
+	return w.inner.UpdateGCGen(ctx, behavior, lastLock, newContents, stats, writeHook)
+}
+
+// verifManHookedLocker additionally forwards LockManifest (grace prune needs it).
+type verifManHookedLocker struct{ *verifManHooked }
+
+func (w verifManHookedLocker) LockManifest(ctx context.Context) (lockedManifest, error) {
+	return w.inner.(manifestLocker).LockManifest(ctx)
+}
+
+// VerifManSetHooks installs (or, with two nils on an already wrapped store, clears) the
+// read hook (runs before the manifest file is opened) and the write hook (runs inside Update
+// while the manifest's exclusive region is held) for every manifest access |nbs| makes.
+func VerifManSetHooks(nbs *NomsBlockStore, readHook, writeHook func() error) {
+	nbs.mu.Lock()
+	defer nbs.mu.Unlock()
+	switch m := nbs.manifest.(type) {
+	case *verifManHooked:
+		m.readHook, m.writeHook = readHook, writeHook
+		return
+	case verifManHookedLocker:
+		m.readHook, m.writeHook = readHook, writeHook
+		return
+	}
+	h := &verifManHooked{inner: nbs.manifest, readHook: readHook, writeHook: writeHook}
+	if _, ok := nbs.manifest.(manifestLocker); ok {
+		nbs.manifest = verifManHookedLocker{h}
+	} else {
+		nbs.manifest = h
+	}
+}
+
+// VerifManNewLocalStore is newLocalStore (NewLocalStore with the conjoin threshold exposed).
+func VerifManNewLocalStore(ctx context.Context, nbfVerStr, dir string, memTableSize uint64, maxTables int, q MemoryQuotaProvider) (*NomsBlockStore, error) {
+	return newLocalStore(ctx, nbfVerStr, dir, memTableSize, maxTables, q, false)
+}
+
+// VerifManSetPruneHooks sets the package's own grace-prune test hooks; returns the old ones.
+func VerifManSetPruneHooks(afterSnapshot, underLock func()) (oldAfter, oldUnder func()) {
+	oldAfter, oldUnder = _testPruneAfterSnapshotHook, _testPruneUnderLockHook
+	_testPruneAfterSnapshotHook, _testPruneUnderLockHook = afterSnapshot, underLock
+	return
+}
+
+// VerifManUpstream reports what |nbs| currently believes the manifest is.
+func VerifManUpstream(nbs *NomsBlockStore) VerifManContents {
+	nbs.mu.RLock()
+	defer nbs.mu.RUnlock()
+	return verifManFrom(nbs.upstream)
+}
+
+// VerifManNovelCount / VerifManHasMemtable expose the two facts Commit's shortcut looks at.
+func VerifManNovelCount(nbs *NomsBlockStore) int {
+	nbs.mu.RLock()
+	defer nbs.mu.RUnlock()
+	return len(nbs.tables.novel)
+}
+
+func VerifManHasMemtable(nbs *NomsBlockStore) bool {
+	nbs.mu.RLock()
+	defer nbs.mu.RUnlock()
+	return nbs.memtable != nil
+}
+
+// VerifManHasCacheContains reports membership in the store's has-cache.
+func VerifManHasCacheContains(nbs *NomsBlockStore, h hash.Hash) bool {
+	return nbs.hasCache.Contains(h)
+}
+
+// VerifManConjoinAfterRenameHook sets the fsTablePersister's own conjoin test hook.
+func VerifManConjoinAfterRenameHook(nbs *NomsBlockStore, f func()) bool {
+	ftp, ok := nbs.persister.(*fsTablePersister)
+	if !ok {
+		return false
+	}
+	ftp._testFtpConjoinAfterRenameHook = f
+	return true
+}
+
+// VerifManTableFileOrArchiveExists is tableFileOrArchiveExists.
+func VerifManTableFileOrArchiveExists(dir string, h hash.Hash) (bool, error) {
+	return tableFileOrArchiveExists(dir, h)
+}
